@@ -46,6 +46,8 @@ def data_stream(props, name="data-cosim"):
             res.distribution["requests"] += len(scn["requests"])
             res.distribution["listener_calls"] += len(A.lsn)
             res.distribution["listener_forwarded"] += sum(1 for l in A.lsn if l["line"] is not None)
+            res.distribution["illtyped_listener_calls"] += sum(1 for l in A.lsn if l["ev"].get("illtyped"))
+            res.distribution["failure_notifications_after_illtyped"] += sum(1 for l in A.lsn if l["ev"].get("illtyped") and (l["line"] or "").startswith("FAL|"))
             # non-trivial: some request arrived while its item's dequeuer was working (pipelining took effect)
             overl = any(A.arrive.get(rid) is not None and any(
                 tk["begin"] is not None and tk["begin"] <= A.arrive[rid] and (tk["end"] is None or A.arrive[rid] <= tk["end"])
